@@ -13,7 +13,7 @@ ALL4 = ["std-debug", "std-release", "nosimd-debug", "nosimd-release"]
 
 PROPS = {
     "C01": dict(
-        theorems=["core_eq_spec", "block_conforms", "keystream_conforms", "apply_exact"],
+        theorems=["core_eq_spec", "block_conforms", "keystream_conforms", "apply_exact", "source_kernels_match", "source_code_match"],
         gen=g("C01"),
         cfgs_quick=["std-debug", "std-release", "nosimd-debug"],
         cfgs_thorough=ALL4,
@@ -39,7 +39,7 @@ PROPS = {
         cfgs_thorough=ALL4,
     ),
     "C15": dict(
-        theorems=["get_set", "set_isolated", "bad_param", "set_is_direct", "stream64_eq_iff",
+        theorems=["get_set", "set_isolated", "bad_param", "bad_param_small", "param_high_bit_ignored", "set_is_direct", "stream64_eq_iff",
                   "stream32_eq_iff", "stream64_eq_refill"],
         gen=g("C15"),
         cfgs_quick=["std-debug", "std-release"],
@@ -90,13 +90,13 @@ PROPS = {
         cfgs_thorough=["std-debug", "std-release"],
     ),
     "C05": dict(
-        theorems=["skein_conforms", "process_block_is_ubi_step", "default_is_config_ubi", "output_loop_is_output"],
+        theorems=["skein_conforms", "process_block_is_ubi_step", "default_is_config_ubi", "output_loop_is_output", "source_kernels_match"],
         gen=g("C05"),
         cfgs_quick=STD2,
         cfgs_thorough=STD2 + ["nounroll-release"],
     ),
     "C09": dict(
-        theorems=["threefish_conforms", "unroll_eq_loop", "P_tables"],
+        theorems=["threefish_conforms", "unroll_eq_loop", "P_tables", "source_kernels_match", "source_code_match"],
         gen=g("C09"),
         cfgs_quick=["std-debug", "std-release", "nounroll-release"],
         cfgs_thorough=["std-debug", "std-release", "nounroll-release", "nounroll-debug"],
@@ -109,7 +109,7 @@ PROPS = {
     ),
     "C04": dict(
         theorems=["put_block_eq_compress32", "put_block_eq_compress64", "finalize_conforms",
-                  "blake_conforms", "counter_exact", "streaming_conforms", "increase_count_exact"],
+                  "blake_conforms", "counter_exact", "streaming_conforms", "increase_count_exact", "source_kernels_match", "source_code_match"],
         gen=g("C04"),
         cfgs_quick=["std-debug", "std-release", "nosimd-debug"],
         cfgs_thorough=ALL4,
@@ -136,14 +136,14 @@ PROPS = {
     "C06": dict(
         theorems=["jh_conforms", "f8_conforms", "round_refines", "constants_conform", "h0_conforms",
                   "ss_is_sbox", "l_is_L", "swap_is_xor", "jh_conforms_partial",
-                  "jh_datalen_exact", "jh_datalen_overflow_debug", "jh_bitlen_check"],
+                  "jh_datalen_exact", "jh_datalen_overflow_debug", "jh_bitlen_check", "source_kernels_match"],
         gen=g("C06"),
         cfgs_quick=["std-debug", "std-release", "nosimd-debug"],
         cfgs_thorough=ALL4,
     ),
     "C07": dict(
         theorems=["groestl_conforms", "tf512_is_f", "of512_is_omega", "tf1024_is_f", "of1024_is_omega",
-                  "counter_exact", "final_count_exact"],
+                  "counter_exact", "final_count_exact", "source_kernels_match", "source_literals_match"],
         gen=g("C07"),
         cfgs_quick=["std-debug", "std-release"],
         cfgs_thorough=["std-debug", "std-release"],
@@ -207,3 +207,14 @@ PROPS["C04"]["extra"] = _single_extra("blake")
 PROPS["C05"]["extra"] = _single_extra("skein")
 PROPS["C06"]["extra"] = _single_extra("jh")
 PROPS["C07"]["extra"] = _single_extra("groestl")
+
+
+# ---- C01/C04/C05/C06/C07/C09: the translator tie (tools/inventory_kernels.py -> lean/CC/Gen/Kernels.lean,
+#      obligations CC.Src.src_* collected in CC.Thm.Cxx.source_kernels_match)
+for _pid in ("C01", "C04", "C05", "C06", "C07", "C09"):
+    PROPS[_pid].setdefault("trusted_extra", [])
+    PROPS[_pid]["trusted_extra"] = PROPS[_pid]["trusted_extra"] + [
+        "tools/inventory_kernels.py: Rust lexer + symbolic evaluator for the straight-line kernels, literal tables and "
+        "instantiating macro arguments; its table (Rust operator / ppv-lite86 trait method, vector type) -> Mach field, "
+        "printed in the header of lean/CC/Gen/Kernels.lean; loops, macro bodies and control flow are NOT translated "
+        "(tied by the correspondence only)"]
